@@ -10,7 +10,7 @@ use crate::api::*;
 use crate::arena::*;
 use crate::arena_scopes::TopOp;
 use bsv_core::runner::{CaseReport, CaseResult, Engine};
-use bsv_core::talloc::{self, FaultPlan, GrantPolicy, Handle, O32, O64, P, P24, Z, with_ctx};
+use bsv_core::talloc::{self, B240, FaultPlan, GrantPolicy, Handle, O32, O64, P, P24, Z, with_ctx};
 
 #[derive(Clone, Debug)]
 pub struct Header {
@@ -488,6 +488,8 @@ pub fn cells() -> Vec<Cell> {
         cell!(P24, 32, false, true, true, true, 512),
         cell!(O32, 32, true, true, true, true, 512),
         cell!(O32, 32, false, true, true, true, 512),
+        cell!(B240, 32, true, true, true, true, 512),
+        cell!(B240, 32, false, true, true, true, 512),
     ]
 }
 
